@@ -172,6 +172,7 @@ async fn sweep_lines(w: &World, rng: &mut Rng, full_bits: bool) -> Vec<String> {
         for k in 0..w.history.len() {
             v.push(format!("stale-repoint {loc} hmeta:{k}"));
         }
+        v.push(format!("stale-repoint {loc} own-prefix"));
         v.push(format!("stale-repoint {loc} own-short"));
         v.push(format!("stale-repoint {loc} own-stripped"));
         // every chunk-aligned cut of the ciphertext object
